@@ -806,6 +806,13 @@ func genC05Filter(c *ctx) {
 			}
 			feedOut([]byte(full + "\r\n")) // a second identical chunk is NOT suppressed
 			feedIn([]byte("typed during the 3 s\r"))
+			// DIRECT ORACLE: once ctrl-C, the command and its echo are through, output passes again
+			mark := []byte(fmt.Sprintf("after-drag-%d\r\n$ ", i))
+			at := x.rec.length()
+			feedOut(mark)
+			if got := x.rec.snapshot()[at:]; !c05Only(got, 't', mark) && outs[i].viol == "" {
+				outs[i].viol = fmt.Sprintf("server output after a drag upload's command echo did not reach the terminal: fed %q, terminal got %v", mark, got)
+			}
 		}
 		x.close()
 		outs[i].args = []string{c05Flags(o, notTrz, true), hx([]byte(cmd)), table, "-", hx([]byte(c05TraceOn)), hx([]byte(c05TraceOff)), strings.Join(toks, ",")}
@@ -815,7 +822,7 @@ func genC05Filter(c *ctx) {
 		c.emit(true, "c05_run", outs[i].result, outs[i].args...)
 		c.count("case:drag-exception")
 		if outs[i].viol != "" {
-			c.violate("drag-upload:"+outs[i].viol, outs[i].viol, strings.Join(outs[i].args, " "))
+			c.violate("drag-upload", outs[i].viol, strings.Join(outs[i].args, " "))
 		}
 	}
 }
